@@ -196,7 +196,7 @@ func vc_C01_rotate_translate3d() {
 	vfCheckBox3(Transform3D(vfNewLeaf3("a", vfK1), m), "Transform3D(translate*rotateZ)")
 }
 
-func vc_C01_scaletwistextrude3d() {
+func vt_C01_scaletwistextrude3d() { // thorough only: minutes of nlsat time, one side undecided without a lemma chain
 	vfTimeouts(2000, 6000)
 	a := vfNewLeaf2("a", vfK1)
 	h := vfPosParam("h", 100)
@@ -211,6 +211,7 @@ func vc_C01_scaletwistextrude3d() {
 func vc_C01_screw3d() {
 	vfTimeouts(3000, 15000)
 	prof := vfNewLeaf2("thread", vfK1)
+	vfAssume(prof.bb.Max.Y >= 0) // domain: the profile's y axis is the thread radius
 	pitch := vfPosParam("pitch", 10)
 	vfAssume(pitch >= 0.1)
 	st := [4]int{1, 2, -1, -2}[vfCase("starts", 4)]
